@@ -5,6 +5,7 @@ import RV.Proofs.TreeTerm
 import RV.Proofs.TreeArrRoot
 import RV.Proofs.Shear
 import RV.Proofs.Schedule
+import RV.Proofs.TreeGravity
 import Mathlib.Algebra.Order.Field.Rat
 import Mathlib.Tactic.NormNum
 import Mathlib.Tactic.IntervalCases
@@ -425,6 +426,21 @@ theorem c15_update_forest {α : Type} (floor : K → Int) (hfl : ∀ x : K, (flo
     ForestOK (psOf pos arr1) (rootCellOf rs nx ny nz) forest1 arr1.length :=
   updateA_forest floor hfl rs hrs nx ny nz hx hy hz pos flagged fuel forest0 arr0 forest1 arr1 hlen hgeo hbij hbox h
 
+/-! ## tree gravity: the force sum -/
+
+/-- `reb_calculate_acceleration` for REB_GRAVITY_TREE (model `Tree.accCell / accForest`: the walk of
+    `reb_calculate_acceleration_for_particle_from_cell` with its opening criterion, monopole of unopened cells, direct term of
+    leaves, own leaf skipped; compared bitwise with the real accelerations on every run).  With `opening_angle2 = 0`, after the
+    gravity-data update of a well-formed forest with non-zero root width, the acceleration of particle `pt` is exactly the
+    direct sum of the pair term over every other particle of the forest — each once, in tree order — for any `sqrt`, `G`,
+    softening: tree gravity sees every particle exactly once. -/
+theorem c15_tree_gravity_theta0_is_direct_sum (sqrt : K → K) (G soft2 : K) (ps : Nat → Pt K) (rc : Nat → Cell K)
+    (forest : List (T K)) (hwf : ∀ r (h : r < forest.length), WF ps true (rc r) forest[r]) (hw : ∀ r, (rc r).w ≠ 0)
+    (p : Pt K) (pt : Nat) :
+    accForest sqrt G soft2 0 p pt (forest.map (updGrav ps)) =
+      ((forest.flatMap leaves).filter (fun q => q ≠ pt)).foldl (pairForce sqrt G soft2 p.x p.y p.z ps) ⟨0, 0, 0⟩ :=
+  accForest_zero sqrt G soft2 ps true rc forest hwf hw p pt
+
 /-! ## where the boundary check and the tree update sit in a step -/
 
 /-- The calls of `reb_simulation_step` and of the end of `reb_collision_search`, with their guards, are extracted from the
@@ -582,4 +598,11 @@ example : FmodSpec fmodQ := by
       · have : 0 ≤ d * b := mul_nonneg hd0 (le_of_lt hbp)
         linarith
 
+
+/-- tree gravity on the three-particle tree of `exPs` (opening angle 0, `sqrt := id`, G = 1, no softening): x-acceleration of
+    particle 1 from the walk = from the two direct pair terms -/
+example : (match build exPs 10 exCell 3 with
+    | .ok t => ((accForest id 1 0 0 (exPs 1) 1 [updGrav exPs t]).ax ==
+                ([0, 2].foldl (pairForce id 1 0 (exPs 1).x (exPs 1).y (exPs 1).z exPs) ⟨0, 0, 0⟩).ax)
+    | .error _ => false) = true := by decide +kernel
 end RV.C15
